@@ -213,14 +213,16 @@ bool Alarm::activeTimer() {
 
   auto remain_sec = next_utc_sec - curr_utc_sec;
   //! 提升精度，计算中需要等待的毫秒数
-  auto remain_usec = (remain_sec * 1000) - (curr_utc_usec / 1000);
+  //! 注意：必须用64位计算，否则 remain_sec 超过 4294967 秒（约49.7天）时乘1000会溢出，导致提前触发
+  uint64_t remain_msec = (static_cast<uint64_t>(remain_sec) * 1000) - (curr_utc_usec / 1000);
 
 #if 1
-  LogTrace("next_utc_sec:%u, remain_sec:%u, remain_usec:%u", next_utc_sec, remain_sec, remain_usec);
+  LogTrace("next_utc_sec:%u, remain_sec:%u, remain_msec:%llu", next_utc_sec, remain_sec,
+           static_cast<unsigned long long>(remain_msec));
 #endif
 
   //! 启动定时器
-  sp_timer_ev_->initialize(std::chrono::milliseconds(remain_usec), event::Event::Mode::kOneshot);
+  sp_timer_ev_->initialize(std::chrono::milliseconds(remain_msec), event::Event::Mode::kOneshot);
   sp_timer_ev_->enable();
 
   state_ = State::kRunning;
